@@ -203,3 +203,32 @@ P.fn('plasTeX/__init__.py::Counter.alph', name='Counter.alph', params=dict(self=
      requires=['1 <= self.value', 'self.value <= 26'], ensures=['result == chr(96 + self.value)'], kind='property')
 P.fn('plasTeX/__init__.py::Counter.fnsymbol', name='Counter.fnsymbol', params=dict(self='Counter'), returns='str',
      ensures=['result == rep("*", self.value)'], kind='property')
+
+# ------------------------------------------------------------------ list environments: item counters per nesting depth
+P.cls('ListClass', fields=dict(depth='int', counters='list[str]'))
+P.global_obj('List', 'ListClass')
+P.cls('ListEnv', fields=dict(macroMode='int', ownerDocument='Document'))
+P.cls('Document', fields=dict(context='Context'))
+P.cls('Context', fields=dict(counters='dict[str,Counter]'))
+P.cls('TeX')
+P.cls('Any')
+P.const('Environment.MODE_END', 2)
+P.fn('Environment.invoke', params=dict(self='ListEnv', tex='TeX'), returns='Any?', allocates=True, trusted=True,
+     notes='base-class invoke (context push/pop, argument parsing): assumed not to write counter values or List.depth')
+
+CS = 'self.ownerDocument.context.counters'
+WFL = [w.replace('cs', CS) for w in WF]
+NAMES = ['len(List.counters) == 4', 'List.counters is not None'][:1] + \
+        ['all(List.counters[i] in %s and %s[List.counters[i]].name != "" and not WITHIN(%s[List.counters[i]], List.counters[i], %s) for i in range(4))' % (CS, CS, CS, CS)]
+P.fn('plasTeX/Base/LaTeX/Lists.py::List.invoke', name='List.invoke',
+     params=dict(self='ListEnv', tex='TeX'), returns='Any?',
+     requires=WFL + NAMES + ['0 <= List.depth', 'implies(self.macroMode == 2, List.depth >= 1)'],
+     ensures=['List.depth == old(List.depth) + (1 if self.macroMode != 2 else -1)',
+              # entering or leaving a list zeroes the item counters of the new depth and deeper
+              'all(%s[List.counters[i]].value == 0 for i in range(List.depth, 4))' % CS],
+     allocates=True, skip_frame=True,
+     modifies=[Mod('depth', 'r is List'), Mod('value', 'any(k in %s and r is %s[k] for k in Strs())' % (CS, CS))],
+     calls={'Environment.invoke': 'Environment.invoke'},
+     loops={0: Loop(index='i', inv=['List.depth == old(List.depth) + (1 if self.macroMode != 2 else -1)',
+                                    'all(%s[List.counters[j]].value == 0 for j in range(List.depth, i))' % CS],
+                    modifies=[Mod('value', 'any(k in %s and r is %s[k] for k in Strs())' % (CS, CS))])})
